@@ -3,6 +3,7 @@ package harness
 // gen.go — scenario generators built on World.
 
 import (
+	"fmt"
 	"math/big"
 
 	"pgregory.net/rapid"
@@ -10,17 +11,17 @@ import (
 
 // GenCfg biases the general-purpose chain generator.
 type GenCfg struct {
-	MinBlocks, MaxBlocks int // active blocks
-	Actors               int
-	PGraded              int // percent of active blocks with a full OPR set
-	PUnderfilled         int // percent with fewer than the winner count
-	PSPR                 int // percent of blocks (2.0+) with an SPR set when possible
-	MaxTx                int // TX entries per block
+	MinBlocks, MaxBlocks          int // active blocks
+	Actors                        int
+	PGraded                       int // percent of active blocks with a full OPR set
+	PUnderfilled                  int // percent with fewer than the winner count
+	PSPR                          int // percent of blocks (2.0+) with an SPR set when possible
+	MaxTx                         int // TX entries per block
 	PConv, PBatch, PGarbage, PDup int // percent among TX entries (rest: transfers)
-	InvalidOPR           int // max invalid OPR records mixed in
-	AllowForbiddenDest   bool
-	CrossSnapshot        bool // extend with empty blocks so that a multiple of 144 is crossed
-	NoSaltEdges          bool
+	InvalidOPR                    int // max invalid OPR records mixed in
+	AllowForbiddenDest            bool
+	CrossSnapshot                 bool // extend with empty blocks so that a multiple of 144 is crossed
+	NoSaltEdges                   bool
 }
 
 func DefaultCfg() GenCfg {
@@ -281,6 +282,21 @@ func GenTimelineScenarioWith(t *rapid.T, cfg GenCfg, amend func(w *World, b *Blo
 		}
 		// the grader refuses a 10-winner history from version 3 on: mainnet had fully
 		// graded V2 blocks before the switch; so does every generated chain
+		if h < era.GradingV2 && len(b.OPR) >= 10 && rapid.Bool().Draw(t, "v1BadPayoutAddress") {
+			// V1 grading does not look at the payout address: several otherwise valid records with an
+			// undecodable one, so that one of them usually ends up among the ten winners (its reward is
+			// not paid, everybody else's is)
+			ver := w.M.oprVersion(h)
+			prev := w.M.prevWin
+			if len(prev) == 0 {
+				prev = make([]string, 10)
+			}
+			for i := 0; i < 5; i++ {
+				w.seq++
+				b.OPR = append(b.OPR, OPREntry(OPRSpec{Version: ver, Height: int32(h), Winners: prev, Address: "FA2notAnAddress",
+					ID: fmt.Sprintf("x%d", i), Assets: vectorFor(ver, w.Price), Nonce: []byte{0xd0, byte(i), byte(h), byte(w.seq)}}))
+			}
+		}
 		if h >= era.GradingV2 && h < era.FreeFloat && needFullV2 {
 			b.OPR = w.OPRSet(OPRSetOpts{N: 26, Miners: w.Actors[:26]})
 			needFullV2 = false
